@@ -204,7 +204,10 @@ public:
             Atomic::increment(_pool->_processedJobs);
           }
           else
+          {
+            enqueuedSignal.set(); // this worker may have cancelled a wake-up meant for the others (reset above)
             break;
+          }
         }
         NSTD_VERIF_POINT(7, &_terminated);
         _terminated = true;
